@@ -224,7 +224,11 @@ def run_parsers(prop, tier):
                            "with the pristine-process reference and with a pristine process under another hash seed; "
                            "distinct = distinct (op-kind sequence incl. fired faults, workload sources); non-trivial = contains a re-run "
                            "on the same object, a second object, or a fired cancel")
-            cov["faults_fired"] = {k: agg.stats[k] for k in ("cancel_stmt_fired", "cancel_line_fired", "dump_fault_fired")}
+            cov["faults_fired"] = {k: agg.stats[k] for k in ("cancel_stmt_fired", "cancel_line_fired", "dump_fault_fired", "clock_jumps", "env_flip_evaluations")}
+            cov["sensing"] = {"clock_reads_by_library": agg.stats["clock_reads_by_library"], "clock_slept_s": agg.stats["clock_slept_s"],
+                              "env_reads_by_library_in_other_process": agg.stats["env_reads_by_library"],
+                              "env_dependent_outcomes": agg.stats["env_dependent_outcomes"],
+                              "note": "every clock readable from Python (time.time/monotonic/perf_counter/sleep, datetime.now/today) is the simulator's; the other-environment reference runs years ahead, under application-configured logging, and re-evaluates a request with each environment variable flipped that library code read while answering it"}
             cov["probes"] = {k: agg.stats[k] for k in ("reruns", "mode_changes", "after_fault_checks", "cancel_in_multi", "exc_outcomes", "objects",
                                                        "refs", "refs_other_hashseed", "global_state_changed", "victims_run",
                                                        "marathon_runs", "reflag_objects", "followup_objects", "nodump_with_paths", "from_file_other_process", "results_scribbled", "runs_inside_handler")}
@@ -236,7 +240,8 @@ def run_parsers(prop, tier):
                            "yield trace (S/O) or switch-point signature (L); non-trivial = at least one context switch happened")
             cov["enumeration"] = enum_info
             cov["faults_fired"] = {"context_switches": agg.stats["switches"] + agg.stats["enum_switches"],
-                                   "cancel_fired": agg.stats["cancel_fired"]}
+                                   "cancel_fired": agg.stats["cancel_fired"], "clock_jumps": agg.stats["clock_jumps"]}
+            cov["sensing"] = {"clock_reads_by_library": agg.stats["clock_reads_by_library"], "clock_slept_s": agg.stats["clock_slept_s"]}
             cov["probes"] = {"ctor_during_other_run": agg.stats["ctor_during_other_run"], "exc_outcomes": agg.stats["exc_outcomes"],
                              "line_points": agg.stats["line_points"], "label_points": agg.stats["label_points"], "lock_waits": agg.stats["lock_waits"],
                              "then_objects_runs": agg.stats["then_objects_runs"], "marathon_runs": agg.stats["marathon_runs"],
